@@ -41,7 +41,7 @@ def generate(G):
     conv([1, 2, 2], [2, 1, 1, 2], (1, 1), "Relu", "quick")
     conv([2, 1, 2, 2], [2, 1, 2, 1], (1, 1), "None", "quick")       # batch 2 x 2 filters: bias broadcast [F,1,1] into [B,F,r,c]
     conv([1, 1, 2, 3], [1, 1, 1, 2], (1, 1), "None", "thorough")
-    conv([1, 3, 3], [1, 1, 2, 2], (1, 2), "None", "thorough")               # one output column, filter narrower than the image
+    conv([1, 3, 3], [1, 1, 2, 2], (1, 2), "None", "quick")                  # one output column, filter narrower than the image
     conv([1, 2, 4], [1, 1, 2, 2], (1, 2), "None", "thorough")
     conv([2, 2, 2], [1, 2, 2, 2], (1, 1), "Sigmoid", "thorough", stubs=("exp",))
 
